@@ -168,11 +168,13 @@ EncTuple(t, acc) == IF t = <<>> THEN acc ELSE EncTuple(Tail(t), acc * 100 + Head
 ZipOf(ls) == LET m == MinOf({Len(ls[i]) : i \in 1..Len(ls)})
              IN [k \in 1..m |-> EncTuple([i \in 1..Len(ls) |-> ls[i][k]], 0)]
 
-\* choices of one result per source pipeline (singletons unless a defect branch is enabled)
+\* choices of one result per source pipeline (singletons unless a defect branch is enabled): the product
+\* of the per-source result sets, built directly
+RECURSIVE ProdSeq(_)
+ProdSeq(sets) == IF sets = <<>> THEN {<<>>}
+                 ELSE {<<x>> \o rest : x \in Head(sets), rest \in ProdSeq(Tail(sets))}
 SrcChoices(c, D) ==
-  LET sets == [i \in 1..NSrc(c) |-> {e.els : e \in Outs(c.srcs[i].p, c.srcs[i].inp, {}, D)}]
-      all  == UNION {sets[i] : i \in 1..NSrc(c)}
-  IN {f \in [1..NSrc(c) -> all] : \A i \in 1..NSrc(c) : f[i] \in sets[i]}
+  ProdSeq([i \in 1..NSrc(c) |-> {e.els : e \in Outs(c.srcs[i].p, c.srcs[i].inp, {}, D)}])
 
 JudgeLinear(c, r, D) ==
   LET p == c.srcs[1].p \o c.post \o c.branches[1]
